@@ -223,6 +223,15 @@ def run_unit(u: Unit, char: str, workroot: str, canary=False, keep=False, repo=N
                     % (r.reason[:160], "holds" if r2.status == "pass" else "undecided (" + r2.reason[:120] + ")"))
         r.wall_s = r2.wall_s
         return r
+    if r.status == "undecided" and u.mem_gb < 24 and ("UNKNOWN" in r.reason or "rc=6" in r.reason) and not canary:
+        # solver / symbolic execution ran out of memory under the per-unit limit: one retry with a larger limit
+        import copy
+        u3 = copy.copy(u)
+        u3.mem_gb = 24
+        r3 = _run_unit(u3, char, workroot, canary, keep, repo)
+        r3.wall_s += r.wall_s
+        if r3.status != "undecided":
+            return r3
     if r.status == "undecided" and r.reason.startswith("unwinding assertion failed") and u.unwind < 640:
         import copy
         u2 = copy.copy(u)
